@@ -296,7 +296,11 @@ def r1_tag_chain(ctx, rule, scope='all'):
         and lfacts.get('directory') == "config.get('directory')" and \
         ((lfacts.get('filenames') == "json.loads(config.get('filenames'))" and lfacts.get('loop_over') == 'filenames')
          or lfacts.get('loop_over') == "json.loads(config.get('filenames'))")
-    if not key_ok or not path_ok or not cfl_ok:
+    if (not key_ok or not path_ok) and any(lfacts.get(k_) is None for k_ in ('name', 'full_path', 'directory')):
+        ok_all = False
+        ctx.unk(rule, GIO + '_load_from_multiple_files', 'the key / path construction of the length-indexed loader was not found in a form this '
+                'rule knows (%s)' % sorted(k_ for k_ in ('name', 'full_path', 'directory') if lfacts.get(k_) is None))
+    elif not key_ok or not path_ok or not cfl_ok:
         ok_all = False
         ctx.bad(rule, GIO + '_load_from_multiple_files', 'loader key/path construction %s' % lfacts,
                 "every listed file <stem>.txt of a section must be loaded from <directory>/<file> under the key <name><stem>; "
@@ -382,7 +386,10 @@ def r1_tag_chain(ctx, rule, scope='all'):
                         {'row': row}, None)
     # Markov: fixed path
     mpath = fixed.get('M')
-    if mpath != ('Omen', 'pcfg_omen_prob.txt') and ('Omen', 'pcfg_omen_prob.txt') not in fixed.get('paths', ()):
+    if mpath is None and ('Omen', 'pcfg_omen_prob.txt') not in fixed.get('paths', ()):
+        ok_all = False
+        ctx.unk(rule, GIO + '_load_terminals', "the load of grammar['M'] was not found in a form this rule knows")
+    elif mpath != ('Omen', 'pcfg_omen_prob.txt') and ('Omen', 'pcfg_omen_prob.txt') not in fixed.get('paths', ()):
         ok_all = False
         ctx.bad(rule, GIO + '_load_terminals', "grammar['M'] loaded from %s" % (mpath,), 'OMEN level probabilities live in '
                 'Omen/pcfg_omen_prob.txt', None, None)
